@@ -5,7 +5,7 @@ EXTENDS Validator, Json
 \* history variables that do not influence the future are hidden from the
 \* fingerprint: two behaviours that differ only there are the same scenario
 View == <<scn, budget, advlog, pc, pend, inbox, msg, gi, gst, walk, node, tkeys, dsd,
-          ttl0, probes, result>>
+          ttl0, probes, entp, result>>
 
 \* deviations: what the code does today, per scenario (DESIGN 2.6)
 HasAct(S) == \E i \in 1..Len(advlog) : advlog[i].act \in S
